@@ -1,10 +1,11 @@
 (** * C11 — Shutdown leaves only terminal jobs and a store that matches them  (partial for real time)
     Proved on the model: what the critical sections of Shutdown do and when it can return; the debounce protocol of
-    the persist loop. Not proved: that every change of the persisted view calls requestPersist (compared after every
-    event by the correspondence run, with a monitor), wall-clock bounds (poll and persist intervals), signal wiring. *)
+    the persist loop; every step that changes what SaveToStore would write sets the persist request
+    (C11_change_requests_save; the flag itself is compared with requestPersist after every event by the correspondence
+    run). Not proved: wall-clock bounds (poll and persist intervals), signal wiring. *)
 From stdpp Require Import list.
 From Coq Require Import ZArith Lia.
-From PV Require Import Runner PersistLoop proofs.PersistProps.
+From PV Require Import System Runner PersistLoop proofs.PersistProps proofs.PersistReqProps.
 
 (** while shutting down no schedule request is accepted, and none leaves a trace *)
 Theorem C11_no_admission : ∀ s p v u, st_shut s = true → do_schedule s p v u = (s, RErrShutdown).
@@ -38,6 +39,15 @@ Theorem C11_store_matches : ∀ s s',
   ∧ st_shutg s' = None ∧ st_shut s' = st_shut s.
 Proof. exact shutdown_return_store. Qed.
 
+(** every event other than a save, a restart and the two ends of Shutdown (which saves before it returns): if the step changes
+    what SaveToStore would write ([pview]: the jobs not yet removed, as persisted), it requests a save *)
+Theorem C11_change_requests_save : ∀ s e s' r,
+  step s e = Some (s', r) → ¬ writes_store e → pview s' ≠ pview s → st_req s' = true.
+Proof. exact change_requests_save_view. Qed.
+(** [pview] is what a save writes *)
+Theorem C11_save_writes_view : ∀ s, st_store (do_save s) = Some (pview (do_save s)).
+Proof. exact save_writes_view. Qed.
+
 (** the persist loop: an acknowledged change is never forgotten (a token is pending or the snapshot is about to be
     taken), the loop can always move, and three loop events — end of the current sleep, take, snapshot: one persist
     interval plus one save — bring the store up to date *)
@@ -56,11 +66,18 @@ Example C11_ex_graceful :
   ((fun j => (j_completed j, j_canceled j)) <$> st_jobs s, st_shutg s, length <$> st_store s) = ([(true, false); (false, true)], None, Some 2%nat).
 Proof. vm_compute. done. Qed.
 
+Example C11_ex_change_requests :
+  let s := exec (init ex_defs) [EvSchedule 0 VNone 0; EvIterBegin 0] in
+  (pview <$> (fst <$> step s (EvVisit 0 0))) ≠ Some (pview s) ∧ (st_req <$> (fst <$> step s (EvVisit 0 0))) = Some true.
+Proof. vm_compute. split; [discriminate|done]. Qed.
+
 Print Assumptions C11_no_admission.
 Print Assumptions C11_graceful_cancels_only_waiting.
 Print Assumptions C11_forced_cancels_running.
 Print Assumptions C11_after_return_terminal.
 Print Assumptions C11_store_matches.
+Print Assumptions C11_change_requests_save.
+Print Assumptions C11_save_writes_view.
 Print Assumptions C11_change_not_forgotten.
 Print Assumptions C11_loop_not_stuck.
 Print Assumptions C11_change_reaches_store.
